@@ -3,6 +3,10 @@ use crate::framework::{Monitor, Tier};
 pub mod c06;
 pub mod c08;
 pub mod c09;
+pub mod c10;
+pub mod c11;
+pub mod c12;
+pub mod c16;
 pub mod c18;
 pub mod safety_uni;
 use crate::model::uni::Policy;
@@ -15,6 +19,10 @@ pub fn by_id(id: &str) -> Option<Box<dyn Monitor>> {
         "C06" => Box::new(c06::C06),
         "C08" => Box::new(c08::C08),
         "C09" => Box::new(c09::C09),
+        "C10" => Box::new(c10::C10),
+        "C11" => Box::new(c11::C11),
+        "C12" => Box::new(c12::C12),
+        "C16" => Box::new(c16::C16),
         "C18" => Box::new(c18::C18),
         _ => return None,
     })
